@@ -81,8 +81,11 @@ add("C12",
     "state no AGE_UPDATE message is pending and no EXIT_NOTIFICATION anywhere (clean exit, so the next call starts clean); the "
     "island ages sum to at least n*(generational_age + num_steps); every reported or in-flight age is a lower bound of the "
     "sender's age; from EVERY reachable state some continuation lets every rank return (lexicographic measure, no trap). "
-    "Once rank 0 has left its loop every round-robin continuation completes within Phi(state) rounds (potential argument over "
-    "all steps of all ranks). PARTIAL: that rank 0 leaves the loop under every fair, paced schedule is not proved. Tie: the real "
+    "Under every interleaving rank 0 goes round its loop at most deficit-many times (reported ages only grow); under the pacing "
+    "premise made precise as paced rounds (every rank a turn, helpers fewer than n turns, rank 0 at least 2*helper turns+1) every "
+    "continuation of Omega(state) rounds from every reachable state completes the call, 4*n*target+6n(n+5)+20n+2 rounds from the "
+    "start; once rank 0 has left its loop every round-robin continuation completes within Phi(state) rounds with no pacing "
+    "premise (potential arguments over all steps of all ranks). PARTIAL: fairness weaker than rounds is not covered. Tie: the real "
     "ParallelArchipelago (real Island, hall of fame, migration, closing collectives) runs on a deterministic stand-in for mpi4py "
     "(tools/vendor/mpi4py: threads + choice-driven scheduler, buffered isend); the call sequence of every non-blocking call is "
     "replayed through the model (same calls in the same order, same final ages, empty mailboxes); oracle on the real run: no "
